@@ -126,6 +126,29 @@ func printWriteObligations(c *Ctx, rule string, names map[string]bool, allowSucc
 			// follow the numbering discipline anyway (decided per site, not by name)
 			ok, why = c.raceDisciplined(g, roots)
 		}
+		if !ok && rule == "OBS-1" && g.kind == "field" {
+			// bookkeeping of the numbering routines themselves: an unexported field that observers
+			// only ever reset to a constant, and that nothing outside the mutex-holding routines
+			// reads (a `stale` flag cleared once the IDs have been re-derived) — no observer's
+			// result can depend on it except through the numbering those routines perform
+			field := g.target[strings.LastIndex(g.target, ".")+1:]
+			constOnly := !token.IsExported(field)
+			for _, site := range g.sites {
+				st, isStore := site.Instr.(*ssa.Store)
+				if !isStore {
+					constOnly = false
+					break
+				}
+				if _, isConst := st.Val.(*ssa.Const); !isConst {
+					constOnly = false
+				}
+			}
+			if constOnly {
+				if d, dwhy := c.raceDisciplined(g, roots); d && strings.HasPrefix(dwhy, "lock-confined") {
+					ok, why = true, "unexported bookkeeping flag of the numbering routines: observers only reset it to a constant, and it is "+dwhy
+				}
+			}
+		}
 		if ok {
 			o.Detail = fmt.Sprintf("%s; %d site(s), e.g. via %s", why, len(g.sites), g.sites[0].Path)
 		} else {
